@@ -338,6 +338,77 @@ fn nested_case(rep: &mut Report, rng: &mut Rng) {
     }
 }
 
+/// Two parent annotations with consecutive handles; complex selectors whose two members address the parents' text with every
+/// pair of whole / almost-whole relative offsets (the store may fold neighbouring whole members into one internal range: the
+/// resolved codepoints of every member must still be exactly the addressed ones).
+fn complex_case(rep: &mut Report, rng: &mut Rng) {
+    let text = crate::gen::gen_text(rng, 6, 16);
+    let chars: Vec<char> = text.chars().collect();
+    let n = chars.len();
+    let mut store = AnnotationStore::new(Config::default().with_debug(false)).with_id("c04");
+    store.add_resource(TextResourceBuilder::new().with_id("r").with_text(text.clone())).expect("resource");
+    let cut = rng.range(2, n as i64 - 2) as usize;
+    let parents = [(0usize, cut), (cut, n)];
+    for (i, (b, e)) in parents.iter().enumerate() {
+        if store.annotate(AnnotationBuilder::new().with_id(format!("p{}", i)).with_target(SelectorBuilder::textselector("r", Offset::simple(*b, *e)))).is_err() {
+            return;
+        }
+    }
+    let shapes = |len: usize| -> Vec<(Off, (usize, usize))> {
+        let l = len as isize;
+        let mut v = vec![
+            (Off { begin: Cur::B(0), end: Cur::E(0) }, (0, len)),
+            (Off { begin: Cur::B(0), end: Cur::B(len) }, (0, len)),
+            (Off { begin: Cur::E(-l), end: Cur::E(0) }, (0, len)),
+            (Off { begin: Cur::E(-l), end: Cur::B(len) }, (0, len)),
+        ];
+        if len >= 2 {
+            v.push((Off { begin: Cur::B(1), end: Cur::E(0) }, (1, len)));
+            v.push((Off { begin: Cur::B(1), end: Cur::B(len) }, (1, len)));
+            v.push((Off { begin: Cur::B(0), end: Cur::E(-1) }, (0, len - 1)));
+            v.push((Off { begin: Cur::B(0), end: Cur::B(len - 1) }, (0, len - 1)));
+            v.push((Off { begin: Cur::E(-l + 1), end: Cur::E(0) }, (1, len)));
+        }
+        v
+    };
+    let s0 = shapes(parents[0].1 - parents[0].0);
+    let s1 = shapes(parents[1].1 - parents[1].0);
+    let mut k = 0;
+    for (o0, r0) in &s0 {
+        for (o1, r1) in &s1 {
+            for kind in 0..3 {
+                k += 1;
+                rep.eval();
+                let members = vec![SelectorBuilder::annotationselector("p0", Some(offset(o0))), SelectorBuilder::annotationselector("p1", Some(offset(o1)))];
+                let (name, target) = match kind {
+                    0 => ("Directional", SelectorBuilder::DirectionalSelector(members)),
+                    1 => ("Composite", SelectorBuilder::CompositeSelector(members)),
+                    _ => ("Multi", SelectorBuilder::MultiSelector(members)),
+                };
+                let id = format!("c{}", k);
+                let ctx = json!({"text": text, "parents": parents, "offsets": [o0.to_json(), o1.to_json()], "selector": name, "path": "complex"});
+                match guard(|| store.annotate(AnnotationBuilder::new().with_id(id.clone()).with_target(target))) {
+                    Ok(Ok(_)) => {
+                        let a = store.annotation(id.as_str()).expect("annotation");
+                        let want = vec![(parents[0].0 + r0.0, parents[0].0 + r0.1), (parents[1].0 + r1.0, parents[1].0 + r1.1)];
+                        let got: Vec<(usize, usize)> = a.textselections().map(|t| (t.begin(), t.end())).collect();
+                        rep.distinct(&format!("complex/{}/{}+{}", name, offclass(o0), offclass(o1)));
+                        if got != want {
+                            let whole = |r: &(usize, usize), p: &(usize, usize)| r.0 == 0 && r.1 == p.1 - p.0;
+                            rep.violation(
+                                format!("C04/text/complex/{}/wrong-ranges/{}+{}", name, if whole(r0, &parents[0]) { "whole" } else { "part" }, if whole(r1, &parents[1]) { "whole" } else { "part" }),
+                                json!({"got": got, "want": want, "ctx": ctx}),
+                            );
+                        }
+                    }
+                    Ok(Err(err)) => rep.violation(format!("C04/annotate/complex/{}/rejects-valid", name), json!({"error": format!("{}", err), "ctx": ctx})),
+                    Err(p) => rep.violation(format!("C04/annotate/complex/{}/panic/{}", name, p.class()), json!({"panic": p.msg, "ctx": ctx})),
+                }
+            }
+        }
+    }
+}
+
 fn extremes(rep: &mut Report) {
     let mut store = AnnotationStore::new(Config::default().with_debug(false)).with_id("c04");
     store.add_resource(TextResourceBuilder::new().with_id("r").with_text("aé😀b")).expect("resource");
@@ -377,7 +448,7 @@ fn extremes(rep: &mut Report) {
 }
 
 pub fn run(p: &Params, rep: &mut Report) {
-    rep.rule = "exhaustive: every text of length 0..=L over {a, é(2 bytes), 😀(4 bytes)} x every pair of cursors of either alignment with values in [-len-2, len+2] -> annotate(TextSelector) and FindText::textselection on the resource; for texts of length 4-5 every parent range x every relative cursor pair -> annotate(AnnotationSelector+offset) and FindText::textselection on the parent's selection; plus random chains of depth 2-3 and extreme cursors (isize::MIN, usize::MAX). Oracle: arithmetic on Vec<char>; every accepted annotation's text/ranges and its offset reported in all four OffsetModes (well-formed, re-resolving to the same range). distinct_nontrivial = distinct (path, accept|reject, alignment, reason|shape) classes".into();
+    rep.rule = "exhaustive: every text of length 0..=L over {a, é(2 bytes), 😀(4 bytes)} x every pair of cursors of either alignment with values in [-len-2, len+2] -> annotate(TextSelector) and FindText::textselection on the resource; for texts of length 4-5 every parent range x every relative cursor pair -> annotate(AnnotationSelector+offset) and FindText::textselection on the parent's selection; plus random chains of depth 2-3, complex selectors over two neighbouring parents with every pair of whole / almost-whole relative offsets (9 x 9 shapes x 3 selector kinds), and extreme cursors (isize::MIN, usize::MAX). Oracle: arithmetic on Vec<char>; every accepted annotation's text/ranges and its offset reported in all four OffsetModes (well-formed, re-resolving to the same range). distinct_nontrivial = distinct (path, accept|reject, alignment, reason|shape) classes".into();
     rep.assumptions = vec!["BeginAligned(x) -> x, EndAligned(x<=0) -> len+x, anything else invalid; accepted iff 0<=b<=e<=len of the addressed text (property statement)".into()];
     let maxlen = if p.thorough { 5 } else { 4 };
     let alphabet = ['a', 'é', '😀'];
@@ -394,6 +465,9 @@ pub fn run(p: &Params, rep: &mut Report) {
     let nested_batches = if p.thorough { 400 } else { 120 };
     for i in 0..nested_batches {
         units.push((2, i));
+    }
+    for i in 0..(if p.thorough { 60 } else { 16 }) {
+        units.push((4, i));
     }
     units.push((3, 0));
     for k in p.cases(units.len() as u64) {
@@ -424,6 +498,10 @@ pub fn run(p: &Params, rep: &mut Report) {
                 for _ in 0..50 {
                     nested_case(rep, &mut rng);
                 }
+            }
+            4 => {
+                let mut rng = Rng::new(p.seed, "c04-complex", i as u64);
+                complex_case(rep, &mut rng);
             }
             _ => extremes(rep),
         }
